@@ -66,6 +66,10 @@ deriving Repr, DecidableEq
 
 def radLen (hdr : Bytes) : Nat := (hdr.getD 2 0).toNat * 256 + (hdr.getD 3 0).toNat
 
+/-- `get_checked_rad_length(hdr)`: the length if 20..4096, else its negative (0 stays 0) -/
+def checkedRadLength (hdr : Bytes) : Int :=
+  if radLen hdr < 20 ∨ radLen hdr > 4096 then -(radLen hdr : Int) else (radLen hdr : Int)
+
 /-- `radtcpget(s, timeout, &buf)`: a packet, a timeout (nothing read), or the reason the connection ends -/
 def radGet (blocking : Bool) (s : Sock) : Out × Sock :=
   match readN blocking 5 s 4 [] with
